@@ -466,7 +466,13 @@ func genRequest(t *rapid.T, conn, nconn int) (stepT, bool) {
 	if err != nil || len(rest) > 1900<<10 {
 		return stepT{}, false
 	}
-	return stepT{Conn: conn, Kind: "req", Type: name, TypeID: id, Token: rapid.SampledFrom(tokenKinds).Draw(t, "token"), Hex: hex.EncodeToString(rest), Desc: desc}, true
+	st := stepT{Conn: conn, Kind: "req", Type: name, TypeID: id, Token: rapid.SampledFrom(tokenKinds).Draw(t, "token"), Hex: hex.EncodeToString(rest), Desc: desc}
+	// a burst: the same request written many times back to back before the
+	// attacker reads anything (it reads afterwards: this is a reading client)
+	if len(rest) < 2000 && rapid.IntRange(0, 5).Draw(t, "burst") == 0 {
+		st.Burst = rapid.SampledFrom([]int{2, 50, 101, 150, 300}).Draw(t, "burstN")
+	}
+	return st, true
 }
 
 // ---------------------------------------------------------------------------
